@@ -75,7 +75,8 @@ type mtr struct {
 	env     map[types.Object]interface{} // pure locals -> expr
 	regs    map[types.Object]int         // rmw locals -> register
 	nregs   int
-	multi   map[types.Object]bool // locals of the package assigned other than by their definition, or whose address is taken (lazily)
+	multi   map[types.Object]bool      // locals of the package assigned other than by their definition, or whose address is taken (lazily)
+	unlockF map[types.Object][2]string // local func value that is the bound Unlock / RUnlock of a mutex field -> (method, field)
 }
 
 // findMetricsVars: the metrics state of a package, by role: package-level variables declared in the package, of
@@ -970,6 +971,9 @@ func (t *mtr) atomicCall(e ast.Expr) (op, field string, args []ast.Expr, ok bool
 
 // lockCall: globalMetrics.M.Lock() / Unlock() / RLock() / RUnlock()
 func (t *mtr) lockCall(s ast.Stmt) (method, field string, ok bool) {
+	if m, f, ok := t.guardCall(s); ok {
+		return m, f, true
+	}
 	es, isE := s.(*ast.ExprStmt)
 	if !isE {
 		return
@@ -977,6 +981,12 @@ func (t *mtr) lockCall(s ast.Stmt) (method, field string, ok bool) {
 	call, isCall := es.X.(*ast.CallExpr)
 	if !isCall {
 		return
+	}
+	if id, isId := ast.Unparen(call.Fun).(*ast.Ident); isId && len(call.Args) == 0 {
+		// unlock()  for  unlock := g.guard()
+		if mf, ok := t.unlockF[t.p.TypesInfo.Uses[id]]; ok {
+			return mf[0], mf[1], true
+		}
 	}
 	sel, isSel := call.Fun.(*ast.SelectorExpr)
 	if !isSel {
@@ -993,6 +1003,83 @@ func (t *mtr) lockCall(s ast.Stmt) (method, field string, ok bool) {
 	return fn.Name(), f, true
 }
 
+// guardCall: s is `unlock := g.guard()` for a same-package function / method without parameters whose whole body is
+// `X.M.Lock(); return X.M.Unlock` (or RLock / RUnlock) on a mutex field M of the metrics variable (X: the variable, or
+// the receiver given the variable), and `unlock` is never assigned again: the statement IS the Lock of M, and a call
+// of the local (`unlock()`, `defer unlock()`) is the matching Unlock.  Any other use of the local mentions M (locs)
+// and is not recognised.
+func (t *mtr) guardCall(s ast.Stmt) (method, field string, ok bool) {
+	as, isA := s.(*ast.AssignStmt)
+	if !isA || as.Tok != token.DEFINE || len(as.Lhs) != 1 || len(as.Rhs) != 1 {
+		return
+	}
+	lid, isId := as.Lhs[0].(*ast.Ident)
+	call, isCall := ast.Unparen(as.Rhs[0]).(*ast.CallExpr)
+	if !isId || !isCall || len(call.Args) != 0 {
+		return
+	}
+	obj := t.p.TypesInfo.Defs[lid]
+	fd := t.calleeOf(call)
+	if obj == nil || fd == nil || fd.Body == nil || fd.Type.Params.NumFields() != 0 || len(fd.Body.List) != 2 || t.assignedAgain(obj) {
+		return
+	}
+	if fd.Recv != nil {
+		// the receiver stands for the metrics variable the method is called on
+		sel, isSel := ast.Unparen(call.Fun).(*ast.SelectorExpr)
+		if !isSel || len(fd.Recv.List) != 1 || len(fd.Recv.List[0].Names) != 1 {
+			return
+		}
+		arg := ast.Unparen(sel.X)
+		if u, isU := arg.(*ast.UnaryExpr); isU && u.Op == token.AND {
+			arg = ast.Unparen(u.X)
+		}
+		aid, isId := arg.(*ast.Ident)
+		if !isId {
+			return
+		}
+		g := t.p.TypesInfo.Uses[aid]
+		if _, isg := t.isG(g); !isg {
+			return
+		}
+		if a, has := t.alias[g]; has {
+			g = a
+		}
+		robj := t.p.TypesInfo.Defs[fd.Recv.List[0].Names[0]]
+		if robj == nil {
+			return
+		}
+		if old, had := t.alias[robj]; had {
+			defer func() { t.alias[robj] = old }()
+		} else {
+			defer delete(t.alias, robj)
+		}
+		t.alias[robj] = g
+	}
+	es, isE := fd.Body.List[0].(*ast.ExprStmt)
+	rs, isR := fd.Body.List[1].(*ast.ReturnStmt)
+	if !isE || !isR || len(rs.Results) != 1 {
+		return
+	}
+	m1, f1, ok1 := t.lockCall(es)
+	rsel, isSel := ast.Unparen(rs.Results[0]).(*ast.SelectorExpr)
+	if !ok1 || !isSel {
+		return
+	}
+	fn, _ := t.p.TypesInfo.Uses[rsel.Sel].(*types.Func)
+	if fn == nil || fn.Pkg() == nil || fn.Pkg().Path() != "sync" {
+		return
+	}
+	f2, ok2 := t.fieldOf(rsel.X)
+	if !ok2 || !isValueForm(rsel.X) || f2 != f1 || !((m1 == "Lock" && fn.Name() == "Unlock") || (m1 == "RLock" && fn.Name() == "RUnlock")) {
+		return
+	}
+	if t.unlockF == nil {
+		t.unlockF = map[types.Object][2]string{}
+	}
+	t.unlockF[obj] = [2]string{fn.Name(), f1}
+	return m1, f1, true
+}
+
 // locs: fields of the metrics struct mentioned in n
 func (t *mtr) locs(n ast.Node) []string {
 	set := map[string]bool{}
@@ -1007,6 +1094,9 @@ func (t *mtr) locs(n ast.Node) []string {
 		case *ast.Ident:
 			if f, ok := t.ptr[t.p.TypesInfo.Uses[y]]; ok {
 				set[f] = true
+			}
+			if mf, ok := t.unlockF[t.p.TypesInfo.Uses[y]]; ok {
+				set[mf[1]] = true
 			}
 		}
 		return true
